@@ -448,6 +448,37 @@ fn c01_like(tier: Tier, oracles: Oracles, with_drop: bool) -> Vec<Scenario> {
         let sc = Scenario::new("utf8-text-owned-strings", Cfg { owned_args: true, ..Cfg::default() }, vec![], Box::new(acts), if q { 3 } else { 4 }, oracles);
         out.push(sc);
     }
+    // leaves that cannot be split (four entries or fewer) and span several pages because of one
+    // oversized value, while also holding the entries of nested buckets (which have trees of their own)
+    {
+        let setup_ops = vec![
+            OpSpec::bucket("create", &[], "m"),
+            OpSpec::put(&["m"], "big", "x*1500"),
+            OpSpec::bucket("create", &["m"], "sub"),
+            OpSpec::put(&["m", "sub"], "huge", "L*5000"),
+            OpSpec::bucket("create", &["m", "sub"], "deep"),
+            OpSpec::bucket("create", &[], "keep"),
+            OpSpec::put(&["keep"], "x", "v*50"),
+        ];
+        let mut fill = vec![];
+        for i in 0..7 {
+            fill.push(OpSpec::put(&["m", "sub", "deep"], &format!("d{}", i), "w*300"));
+        }
+        let mops = vec![
+            OpSpec::bucket("delb", &[], "m"),
+            OpSpec::bucket("delb", &["m"], "sub"),
+            OpSpec::bucket("delb", &["m", "sub"], "deep"),
+            OpSpec::put(&["m"], "big", "v*8"),
+            OpSpec::put(&["m"], "big", "M*2500"),
+            OpSpec::put(&["m", "sub"], "huge", "v*8"),
+            OpSpec::put(&["m", "sub", "deep"], "d0", "x*1500"),
+            OpSpec::bucket("goc", &["m"], "sub"),
+            OpSpec::bucket("goc", &[], "m"),
+            OpSpec::put(&["keep"], "y", "w*300"),
+        ];
+        let sc = Scenario::new("overflow-leaf-with-nested-buckets-m2", Cfg::default(), vec![tx(setup_ops), tx(fill), Action::Reopen], Box::new(txs_of(&mops, 2, with_drop, true)), if q { 2 } else { 3 }, oracles);
+        out.push(sc);
+    }
     // keys of a third of a page: branch pages with few, long separators overflow onto a second page
     {
         let bk: Vec<String> = (0..8).map(|i| format!("K{}*350", i)).collect();
